@@ -33,7 +33,6 @@ func init() {
 const (
 	c17HashSlot    = uint16(7)
 	c17Slot        = uint64(1)
-	c17ChannelType = int64(2)
 )
 
 var c17Seq atomic.Uint64
@@ -44,6 +43,7 @@ type c17Runner struct {
 	sm  multiraft.StateMachine
 	idx uint64
 	err string
+	ops int
 }
 
 func newC17Runner() *c17Runner {
@@ -51,6 +51,7 @@ func newC17Runner() *c17Runner {
 	if base == "" {
 		base = "."
 	}
+	c17Mode = 0
 	r := &c17Runner{dir: filepath.Join(base, fmt.Sprintf("c17-%d-%d", os.Getpid(), c17Seq.Add(1)))}
 	db, err := metadb.Open(r.dir)
 	if err != nil {
@@ -74,15 +75,28 @@ func (r *c17Runner) Close() {
 	_ = os.RemoveAll(r.dir)
 }
 
+// c17Mode selects how the model's two channels map to real channels (set by the `chmode` op, first op of a case):
+//   0: ("ca",2) ("cb",2)  different ids, same type
+//   1: ("cc",2) ("cc",3)  SAME id, different type
+//   2: ("ca",2) ("cb",3)  both differ
+var c17Mode int
+
 func c17Chan(n uint64) string {
-	switch n {
-	case 1:
+	switch {
+	case c17Mode == 1:
+		return "cc"
+	case n == 1:
 		return "ca"
-	case 2:
-		return "cb"
 	default:
-		return fmt.Sprintf("c%d", n)
+		return "cb"
 	}
+}
+
+func c17Type(n uint64) int64 {
+	if c17Mode != 0 && n == 2 {
+		return 3
+	}
+	return 2
 }
 
 func c17Tok(n uint64) string {
@@ -152,7 +166,7 @@ func c17List(tok string) []uint64 {
 func (r *c17Runner) store() *metadb.ShardStore { return r.db.ForHashSlot(c17HashSlot) }
 
 func (r *c17Runner) curTask(c, id uint64) metadb.ChannelMigrationTask {
-	t, err := r.store().GetChannelMigrationTask(context.Background(), c17Chan(c), c17ChannelType, c17Tok(id))
+	t, err := r.store().GetChannelMigrationTask(context.Background(), c17Chan(c), c17Type(c), c17Tok(id))
 	if err != nil {
 		return metadb.ChannelMigrationTask{}
 	}
@@ -160,7 +174,7 @@ func (r *c17Runner) curTask(c, id uint64) metadb.ChannelMigrationTask {
 }
 
 func (r *c17Runner) curMeta(c uint64) metadb.ChannelRuntimeMeta {
-	m, err := r.store().GetChannelRuntimeMeta(context.Background(), c17Chan(c), c17ChannelType)
+	m, err := r.store().GetChannelRuntimeMeta(context.Background(), c17Chan(c), c17Type(c))
 	if err != nil {
 		return metadb.ChannelRuntimeMeta{}
 	}
@@ -207,7 +221,7 @@ func (a *c17Args) done() {
 func (r *c17Runner) guard(a *c17Args, c, id uint64) metadb.ChannelMigrationTaskGuard {
 	t := r.curTask(c, id)
 	return metadb.ChannelMigrationTaskGuard{
-		ChannelID: c17Chan(c), ChannelType: c17ChannelType, TaskID: c17Tok(id),
+		ChannelID: c17Chan(c), ChannelType: c17Type(c), TaskID: c17Tok(id),
 		ExpectedStatus:            metadb.ChannelMigrationStatus(a.val8(uint64(t.Status))),
 		ExpectedPhase:             metadb.ChannelMigrationPhase(a.val8(uint64(t.Phase))),
 		ExpectedOwnerNodeID:       a.val(t.OwnerNodeID),
@@ -229,7 +243,7 @@ func (r *c17Runner) rtguard(a *c17Args) (metadb.ChannelMigrationRuntimeGuard, ui
 	rc := a.chanP()
 	m := r.curMeta(rc)
 	return metadb.ChannelMigrationRuntimeGuard{
-		ChannelID: c17Chan(rc), ChannelType: c17ChannelType,
+		ChannelID: c17Chan(rc), ChannelType: c17Type(rc),
 		ExpectedChannelEpoch:    a.val(m.ChannelEpoch),
 		ExpectedLeaderEpoch:     a.val(m.LeaderEpoch),
 		ExpectedLeader:          a.val(m.Leader),
@@ -242,7 +256,7 @@ func (r *c17Runner) rtguard(a *c17Args) (metadb.ChannelMigrationRuntimeGuard, ui
 func c17TaskLit(a *c17Args) metadb.ChannelMigrationTask {
 	c := a.chanP()
 	id := a.idP()
-	t := metadb.ChannelMigrationTask{ChannelID: c17Chan(c), ChannelType: c17ChannelType, TaskID: c17Tok(id)}
+	t := metadb.ChannelMigrationTask{ChannelID: c17Chan(c), ChannelType: c17Type(c), TaskID: c17Tok(id)}
 	t.Kind = metadb.ChannelMigrationKind(a.lit8())
 	t.Status = metadb.ChannelMigrationStatus(a.lit8())
 	t.Phase = metadb.ChannelMigrationPhase(a.lit8())
@@ -420,7 +434,7 @@ func c17ErrKind(err error) string {
 func (r *c17Runner) setMeta(f []string) string {
 	a := &c17Args{f: f[1:]}
 	c := a.chanP()
-	m := metadb.ChannelRuntimeMeta{ChannelID: c17Chan(c), ChannelType: c17ChannelType}
+	m := metadb.ChannelRuntimeMeta{ChannelID: c17Chan(c), ChannelType: c17Type(c)}
 	cur := r.curMeta(c)
 	m.ChannelEpoch = a.val(cur.ChannelEpoch)
 	m.LeaderEpoch = a.val(cur.LeaderEpoch)
@@ -462,12 +476,11 @@ func c17B(b bool) int {
 	return 0
 }
 
-func c17ChanNum(s string) string {
-	switch s {
-	case "ca":
-		return "1"
-	case "cb":
-		return "2"
+func c17ChanNum(id string, typ int64) string {
+	for n := uint64(1); n <= 2; n++ {
+		if c17Chan(n) == id && c17Type(n) == typ {
+			return strconv.FormatUint(n, 10)
+		}
 	}
 	return "?"
 }
@@ -476,7 +489,7 @@ func (r *c17Runner) dump() string {
 	ctx := context.Background()
 	var sb strings.Builder
 	for c := uint64(1); c <= 2; c++ {
-		m, err := r.store().GetChannelRuntimeMeta(ctx, c17Chan(c), c17ChannelType)
+		m, err := r.store().GetChannelRuntimeMeta(ctx, c17Chan(c), c17Type(c))
 		if errors.Is(err, metadb.ErrNotFound) {
 			fmt.Fprintf(&sb, " M%d:-", c)
 		} else if err != nil {
@@ -486,7 +499,7 @@ func (r *c17Runner) dump() string {
 				m.MinISR, m.LeaseUntilMS, strings.ReplaceAll(c17Nums(m.Replicas), ",", "+"), strings.ReplaceAll(c17Nums(m.ISR), ",", "+"),
 				c17TokNum(m.WriteFenceToken), m.WriteFenceVersion, m.WriteFenceReason, m.WriteFenceUntilMS)
 		}
-		v, ok, err := r.store().VerifChannelMigrationActiveIndexRaw(c17Chan(c), c17ChannelType)
+		v, ok, err := r.store().VerifChannelMigrationActiveIndexRaw(c17Chan(c), c17Type(c))
 		switch {
 		case err != nil:
 			fmt.Fprintf(&sb, " A%d:!", c)
@@ -501,14 +514,14 @@ func (r *c17Runner) dump() string {
 		return sb.String() + " T!" + c17ErrKind(err)
 	}
 	sort.SliceStable(tasks, func(i, j int) bool {
-		if tasks[i].ChannelID != tasks[j].ChannelID {
-			return tasks[i].ChannelID < tasks[j].ChannelID
+		if a, b := c17ChanNum(tasks[i].ChannelID, tasks[i].ChannelType), c17ChanNum(tasks[j].ChannelID, tasks[j].ChannelType); a != b {
+			return a < b
 		}
 		return tasks[i].TaskID < tasks[j].TaskID
 	})
 	for _, t := range tasks {
 		fmt.Fprintf(&sb, " T%s.%s:%d,%d,%d,%d,%d,%d,%s,%d,%d,%d,%d,%d,%d,%d,%d,%d,%d,%d,%d,%d,%d,%d",
-			c17ChanNum(t.ChannelID), c17TokNum(t.TaskID), t.Kind, t.Status, t.Phase, t.SourceNode, t.TargetNode, t.DesiredLeader,
+			c17ChanNum(t.ChannelID, t.ChannelType), c17TokNum(t.TaskID), t.Kind, t.Status, t.Phase, t.SourceNode, t.TargetNode, t.DesiredLeader,
 			c17TokNum(t.FenceToken), t.FenceVersion, t.FenceUntilMS, c17B(t.EmbeddedLeaderTransfer), t.EmbeddedDesiredLeader,
 			t.OwnerNodeID, t.OwnerLeaseUntilMS, t.CutoverLEO, t.CutoverHW, t.DrainedLeaderNode, t.DrainedRuntimeGeneration,
 			t.DrainedChannelEpoch, t.DrainedLeaderEpoch, t.DrainedFenceVersion, t.UpdatedAtMS, t.CompletedAtMS)
@@ -546,6 +559,17 @@ func (r *c17Runner) Step(op string) (out string) {
 	f := strings.Fields(op)
 	if len(f) == 0 {
 		return "bad-op"
+	}
+	r.ops++
+	if f[0] == "chmode" { // channel mapping; only as the very first op of a case
+		if len(f) != 2 || (f[1] != "0" && f[1] != "1" && f[1] != "2") {
+			return "bad-op"
+		}
+		if r.ops != 1 {
+			return "skip #" + r.dump()
+		}
+		c17Mode = int(f[1][0] - '0')
+		return "ok #" + r.dump()
 	}
 	if f[0] == "setmeta" {
 		return r.setMeta(f) + " #" + r.dump()
